@@ -137,7 +137,8 @@ def agreement(ctx, p):
     vv, ve = ctx.body('table::ValueTable::validate_plan'), ctx.body('table::ValueTable::enact_plan')
     if vv and ve:
         def prof(b):
-            return {k: len(b.call_sites(*pats)) for k, pats in (('read', ["log::LogReader::<'a>::read"]), ('tomb', ['table::Entry::<B>::is_tombstone']),
+            # over the function and the private helpers extracted from it (a classifier fn may hold the tests)
+            return {k: sum(len(fb.call_sites(*pats)) for fb in lib.family(F, b.path)) for k, pats in (('read', ["log::LogReader::<'a>::read"]), ('tomb', ['table::Entry::<B>::is_tombstone']),
                                                                 ('multi', ['table::Entry::<B>::is_multi']), ('size', ['table::Entry::<B>::read_size']))}
         pv, pe = prof(vv), prof(ve)
         ctx.ob(p + 'g value-validator-mirrors-applier', 'K9-agreement', vv.path,
@@ -146,8 +147,10 @@ def agreement(ctx, p):
         # the multipart interpretation applies to multipart tables only - on BOTH sides (a validator that takes a marker-like
         # size word of a fixed-size table for a multipart part accepts a record the applier reads as a 32 KiB entry)
         for nm, b in (('validator', vv), ('applier', ve)):
-            for i, s2 in enumerate(b.call_sites('table::Entry::<B>::is_multi')):
-                lib.cond_guarded(ctx, p + 'g2 multipart-test-only-for-multipart-tables %s #%d' % (nm, i), b, s2,
+            ms = lib.fam_sites(F, b.path, ['table::Entry::<B>::is_multi'])
+            ctx.ob(p + 'g1 multipart-test-present %s' % nm, 'anchor', b.path, 'the %s (or a helper of it) consults is_multi' % nm, len(ms) >= 1, '')
+            for i, (fb, s2) in enumerate(ms):
+                lib.cond_guarded(ctx, p + 'g2 multipart-test-only-for-multipart-tables %s #%d' % (nm, i), fb, s2,
                                  'is_multi is consulted only depending on self.multipart (same condition in validator and applier)', fields=['.ValueTable.multipart'])
         reads = vv.call_sites("log::LogReader::<'a>::read")
         last = [r for r in reads if any(s in vv.reaches(x) and r in vv.reaches(s) for x in [0] for s in vv.call_sites('table::Entry::<B>::read_size'))]
